@@ -267,7 +267,7 @@ def run_harness(ck):
     ck.obligation("correspondence: model predict = observed outcome class on %d structured requests" % nstruct, not mism,
                   "mismatching case ids: %s" % mism[:10])
     ck.obligation("spec oracle spec_ok accepts every observation (%d structured + %d byte-level fuzz requests): answered, alive, "
-                  "census stable, later requests served, allocation bounded, snappy limit respected" % (nstruct, nbytes),
+                  "census stable, later requests served, allocation bounded, snappy limit respected, malformed structured input not answered 2xx" % (nstruct, nbytes),
                   not viol, "violating case ids: %s" % viol[:10])
 
     def size(c):
